@@ -242,6 +242,34 @@ def check_D_factorisation() -> list[str]:
     return bad
 
 
+class CaseTimeout(BaseException):  # not an Exception: must pass through `except Exception`
+    pass
+
+
+class time_limit:
+    """wall-clock cap for one case (SIGALRM; the checks run in the main thread of a Unix process)"""
+
+    def __init__(self, seconds: float):
+        self.seconds = seconds
+
+    def __enter__(self):
+        import signal
+
+        def handler(signum, frame):
+            raise CaseTimeout(f"exceeded {self.seconds:.0f} s")
+
+        self.old = signal.signal(signal.SIGALRM, handler)
+        signal.setitimer(signal.ITIMER_REAL, self.seconds)
+        return self
+
+    def __exit__(self, *a):
+        import signal
+
+        signal.setitimer(signal.ITIMER_REAL, 0)
+        signal.signal(signal.SIGALRM, self.old)
+        return False
+
+
 # ============================================================================ reactions
 
 def load_reaction(name: str):
@@ -929,7 +957,7 @@ class C05Property:
             s2 = hist_rng.randrange(0, 9)
             flag = hist_rng.random() < 0.5
             requests.append(f"range {variant} {s2} {int(flag)}")
-            plan.append(("history", s2, flag, hist_rng.random() < 0.3))
+            plan.append(("history", s2, flag, False))
 
         cases = []
         for case in CASES:
@@ -940,6 +968,9 @@ class C05Property:
             cases.append((case, reaction, classify(reaction)))
         skel_real = {}
         formulate_errors = {}
+        timeouts = []
+        case_cap = 240 if thorough else 120       # one formulation / one reaction of the oracle
+        oracle_budget = 1100 if thorough else 200  # the whole numeric oracle
         for case, reaction, cls in cases:
             if not cls["single_topology"]:
                 continue
@@ -947,7 +978,11 @@ class C05Property:
             for align in aligns:
                 key = (case["name"], align)
                 try:
-                    model, rr = formulate(reaction, align)
+                    with time_limit(case_cap):
+                        model, rr = formulate(reaction, align)
+                except CaseTimeout as e:
+                    timeouts.append({"phase": "formulate", "reaction": case["name"], "alignment": align, "detail": str(e)})
+                    continue
                 except Exception as e:  # noqa: BLE001
                     formulate_errors[key] = "".join(traceback.format_exception_only(type(e), e))[-400:]
                     rr = None
@@ -986,8 +1021,12 @@ class C05Property:
             for align in aligns:
                 k = (name, align)
                 try:
-                    expr, rr = formulate_amplitude_only(reaction, align)
-                    skel_real[k] = extract_skeleton(expr, rr, align, amplitude_only=True)
+                    with time_limit(30):
+                        expr, rr = formulate_amplitude_only(reaction, align)
+                        skel_real[k] = extract_skeleton(expr, rr, align, amplitude_only=True)
+                except CaseTimeout as e:
+                    timeouts.append({"phase": "formulate_amplitude", "reaction": name, "alignment": align, "detail": str(e)})
+                    continue
                 except ExtractionError as e:
                     skel_real[k] = [f"unextractable: {e}"]
                     rr = reaction
@@ -1107,6 +1146,17 @@ class C05Property:
         mixed4 = [n for n, (_, _, key, _, mixed) in syn_reactions.items() if mixed and key.startswith("4")]
         general = [n for n, (_, c, key, _, mixed) in syn_reactions.items()
                    if not mixed and c["complete_helicity_sets"] and c["single_topology"]]
+        def cost(name):
+            """number of terms of the axis-angle alignment sum (what the SymPy evaluation time scales with)"""
+            reaction, _, key, types, _ = syn_reactions[name]
+            c = 1
+            for i, t in enumerate(types):
+                d = depth_of(syn_tops[key], i)
+                c *= int(2 * SYN_TYPES[t][0] + 1) ** (d + 1 if d >= 2 else 1)
+            return c
+
+        mixed4 = [n for n in mixed4 if cost(n) <= 250]
+        general = [n for n in general if cost(n) <= 250]
         if thorough:
             chosen = mixed3 + pick_rng.sample(mixed4, 2) + pick_rng.sample(general, 10)
         else:
@@ -1117,6 +1167,8 @@ class C05Property:
             jobs.append(({"name": n, "file": None, "synthetic": {"topology": tree_string(syn_tops[key]), "types": list(types),
                                                                "how": "tools.props.C05.synthetic_reaction(synthetic_topologies()[key], types)"}},
                          reaction, cls))
+        oracle_t0 = _time.time()
+        skipped_budget = []
         for case, reaction, cls in jobs:
             entry = {"reaction": case["name"], **{k: cls[k] for k in ("complete_helicity_sets", "massless_final", "spins2")}}
             if not cls["single_topology"] or not cls["complete_helicity_sets"]:
@@ -1124,7 +1176,19 @@ class C05Property:
                 numeric_log.append(entry)
                 continue
             _tc = _time.time()
-            results, _ = numeric_case(case, reaction, rng, n_events)
+            if _tc - oracle_t0 > oracle_budget * (1.5 if chk.broken else 1):
+                entry["skipped"] = "time budget of the numeric oracle used up"
+                skipped_budget.append(case["name"])
+                numeric_log.append(entry)
+                continue
+            try:
+                with time_limit(case_cap):
+                    results, _ = numeric_case(case, reaction, rng, n_events)
+            except CaseTimeout as e:
+                timeouts.append({"phase": "numeric oracle", "reaction": case["name"], "detail": str(e)})
+                entry["skipped"] = f"case {e}"
+                numeric_log.append(entry)
+                continue
             entry["seconds"] = round(_time.time() - _tc, 1)
             ref = results.get("none", {})
             if "values" not in ref:
@@ -1182,20 +1246,29 @@ class C05Property:
         chk.info("numeric_oracle", numeric_log)
         lap("numeric oracle")
         chk.info("timing_s", timing)
-        # re-probe create_spin_range after all the formulations above (both flags interleaved)
+        if skipped_budget:
+            chk.info("oracle_cases_skipped_for_time", skipped_budget)
+            chk.note(f"{len(skipped_budget)} oracle cases skipped: time budget used up")
+        for t in timeouts[:5]:
+            chk.broken_correspondence("case exceeded its time cap", t)
+        # re-probe create_spin_range after all the formulations above (both flags interleaved); the last
+        # round also writes into the returned lists first (a caller may do that) — done at the very end so
+        # that a function that hands out shared lists cannot poison the models evaluated above
         for s2 in range(0, 9):
-            for flag in (False, True, False):
-                real = real_range(s2 / 2, flag)
+            seq = []
+            for flag, scribble in ((False, False), (True, False), (False, True), (True, True), (False, False), (True, False)):
+                real = real_range(s2 / 2, flag, scribble)
+                seq.append(f"create_spin_range({s2 / 2!r}, no_zero_spin={flag})" + (" ; result.append(99.0)" if scribble else "")
+                           + f"  -> {real}")
                 chk.count(None)
                 if real != expected_range(s2, flag):
                     failing.append((
                         {"class": "create_spin_range deviates from -s..s", "spin": f"{s2}/2", "flag": flag},
                         {"input": {"call": f"create_spin_range({s2 / 2!r}, no_zero_spin={flag})",
-                                   "history": "after formulating the aligned models of this run"},
+                                   "history": "after formulating the aligned models of this run (in particular axis-angle models "
+                                              "with a massless spin-1 final state), then this call sequence in the same process",
+                                   "call_sequence": list(seq)},
                          "observed": real, "expected": expected_range(s2, flag)}))
-        if unjudged:
-            chk.info("unjudged_new_findings", unjudged)
-            chk.note("new finding (not judged, see notes/findings_C05.md): " + DEEP_MASSLESS_CLASS)
         chk.info("input_distribution", {
             "range": "exhaustive 2s = 0..20 x flag (x argument types), malformed: 2s = -6..-1",
             "skeleton": "every corpus case x {none, axis, dpd1..3 (3-body)} on model.intensity; 399 synthetic reactions "
